@@ -706,6 +706,8 @@ class Connection:
             if db.busy_hook is not None and db.busy_hook(self):
                 raise OperationalError('database is locked')
             if db.lock_holder is not None:
+                if db.world is not None:
+                    db.world.spin()
                 raise OperationalError('database is locked')
             db.lock_holder = self
             db.txn_state = db.committed.copy()
